@@ -3271,7 +3271,8 @@ class NameCheckVisitor(node_visitor.ReplacingNodeVisitor):
 
             try:
                 already_exists = key in ret
-            except TypeError:
+            except Exception:
+                # unhashable key: its __hash__ may raise anything
                 continue
 
             if already_exists:
